@@ -166,3 +166,61 @@ def raise_sites(repo, pid="C10"):
             common = sorted(set(sup[a]) & set(sup[b]))
             out.append({"name": f"{pid}:site:extractors:{a}/{b}:disjoint statement types", "status": "proved" if not common else "refuted", "detail": "disjoint" if not common else f"both claim {common}: the result would depend on __subclasses__() order", "clause": "exactly_one_extractor_per_statement_type", "backend": "syntactic scan", "kind": "K3-site"})
     return out
+
+
+# Unguarded picks of the pinned tree, all on the write-target set of ONE statement/subquery.  That a statement has a single
+# write target is an extraction invariant (INSERT/CTAS/UPDATE/MERGE grammar: one target) that no contract here decides and for
+# which no multi-target witness was found: carried as a benign-site ASSUMPTION (DESIGN 4.1), listed in the evidence.  Any
+# other unguarded pick site is a violation.
+PICK_ASSUMED = {
+    ("sqllineage.core.holders", "SubQueryLineageHolder.add_write_column", "list(self.write)[0]"),
+    ("sqllineage.core.holders", "SubQueryLineageHolder._get_target_table", "next(iter(write_only))"),
+    ("sqllineage.core.parser.sqlfluff.extractors.merge", "MergeExtractor.extract", "list(holder.write)[0]"),
+    ("sqllineage.core.parser.sqlfluff.extractors.update", "UpdateExtractor.extract", "list(holder.write)[0]"),
+    ("sqllineage.core.parser.sqlparse.analyzer", "SqlParseLineageAnalyzer._extract_from_dml_merge", "list(holder.write)[0]"),
+    ("sqllineage.runner", "LineageRunner._eval", "next(iter(write))"),
+}
+
+
+def pick_sites(repo, pid="C11"):
+    """no result may depend on WHICH element an unordered collection hands out first: every next(iter(X)) / list(X)[0] /
+    X.pop() on a set-valued X is an obligation |X| <= 1, discharged from a syntactic guard in the same function"""
+    out = []
+    for m in sorted(repo.modules.values(), key=lambda x: x.name):
+        if m.name in repo.ghost or ".sqlparse." in m.name and False:
+            continue
+        for qual, fn in _functions(m):
+            src_fn = ast.unparse(fn)
+            for sub in ast.walk(fn):
+                expr = None
+                if isinstance(sub, ast.Call) and isinstance(sub.func, ast.Name) and sub.func.id == "next" and sub.args and isinstance(sub.args[0], ast.Call) and isinstance(sub.args[0].func, ast.Name) and sub.args[0].func.id == "iter":
+                    expr = sub.args[0].args[0]
+                    form = f"next(iter({ast.unparse(expr)}))"
+                elif isinstance(sub, ast.Subscript) and isinstance(sub.value, ast.Call) and isinstance(sub.value.func, ast.Name) and sub.value.func.id == "list" and isinstance(sub.slice, ast.Constant) and sub.slice.value == 0:
+                    expr = sub.value.args[0]
+                    form = f"list({ast.unparse(expr)})[0]"
+                elif isinstance(sub, ast.Call) and isinstance(sub.func, ast.Attribute) and sub.func.attr == "pop" and not sub.args and isinstance(sub.func.value, ast.Name) and "set" in sub.func.value.id:
+                    expr = sub.func.value
+                    form = f"{ast.unparse(expr)}.pop()"
+                if expr is None:
+                    continue
+                x = ast.unparse(expr)
+                name = f"{pid}:site:{m.name}:{qual}:{form}"
+                # guards recognised: `if len(X) > 1: raise`, `len(X) == 1` in the same expression / enclosing test, X is an ordered
+                # sequence (recursive_crawl / list built from segments), X == self._parent guarded by len(self._parent) == 1
+                just = None
+                if f"len({x}) > 1" in src_fn and "raise" in src_fn:
+                    just = f"guarded: more than one element raises (len({x}) > 1)"
+                elif f"len({x}) == 1" in src_fn:
+                    just = f"guarded by len({x}) == 1"
+                elif "recursive_crawl" in x or "segment" in x.lower() or "token" in x.lower():
+                    just = "an ordered sequence of parse-tree children (no set involved)"
+                elif x in ("write_only",) and "difference" in src_fn:
+                    just = None
+                if just:
+                    out.append({"name": name, "status": "proved", "detail": just, "clause": "no_result_depends_on_set_order", "backend": "syntactic scan", "kind": "K3-site"})
+                elif (m.name, qual, form) in PICK_ASSUMED:
+                    out.append({"name": name, "status": "assumed", "detail": "ASSUMED: one write target per statement (extraction invariant, no multi-target witness found)", "clause": "no_result_depends_on_set_order", "backend": "syntactic scan", "kind": "K3-site"})
+                else:
+                    out.append({"name": name, "status": "refuted", "detail": f"picks an arbitrary element of `{x}` with no guard that it has at most one", "clause": "no_result_depends_on_set_order", "backend": "syntactic scan", "kind": "K3-site"})
+    return out
